@@ -1050,7 +1050,7 @@ func checkReferenceCriterion(prop string, e *biasEvent, call *listenerCall, prop
 		add("reference-not-ranked", fmt.Sprintf("reference criterion '%s' is not among the ranked criteria %v", call.Ref, rk.Ranked))
 		return is
 	}
-	t := strOr(propsForRef, "referenceCriterionType", "importanceRatio")
+	t := refTypeOf(propsForRef, "importanceRatio")
 	if t == "importanceRatio" {
 		want, ok := refCriterionByImportance(rk.Ranked, rk.RankedW, numOr(propsForRef, "newCriterionImportance", 0))
 		if !ok {
